@@ -255,6 +255,19 @@ def guarded_impl(mod, sc, seconds=None):
     finally:
         signal.alarm(0)
         signal.signal(signal.SIGALRM, old)
+        _forget_models()
+
+
+def _forget_models():
+    """mesa keeps every Model that ever created an agent alive for the life of the process (`Agent._ids`, a class-level dict
+    keyed by the model object) and with it the model's spaces and arrays: a worker that runs thousands of scenarios grows by
+    gigabytes.  The models of a finished scenario are never used again, so their counters are dropped here."""
+    try:
+        from mesa.agent import Agent
+
+        Agent._ids.clear()
+    except Exception:
+        pass
 
 
 def _worker(args):
